@@ -209,7 +209,12 @@ def r5(c):
         nb_ = P.fn('rodbus::common::frame::TxId::new')
         ag_ = [s_ for _, s_ in nb_.aggregates('rodbus::common::frame::TxId')]
         c.ob('new', len(ag_) == 1 and q.is_name(nb_, ag_[0]['rv']['a'][0], 'value'), 'TxId::new(v) is TxId { value: v }', '', loc_of(nb_))
-        okr = is_val(nw.args[0]) and b.dominates(nw.ret, ('b', i1)) and not b.in_cycle(('b', i1)) and bool(xs) and all((lambda v_: v_.kind == 'call' and v_.cs is nw and not v_.proj)(q.exit_sem(b, x)) for x in xs)
+        # the id handed out is the value the counter had before the store: TxId::new(self.value) evaluated before it, or
+        # TxId::new(cur) with `cur` read from self.value before it
+        rd_ = read_before(b, nw.args[0], ':value')
+        before = (is_val(nw.args[0]) and b.dominates(nw.ret, ('b', i1)) and rd_ is None) or \
+            (rd_ is not None and ((rd_[0] != i1 and b.dominates(('b', rd_[0]), ('b', i1))) or (rd_[0] == i1 and b.blocks[i1]['stmts'].index(rd_[1]) < b.blocks[i1]['stmts'].index(st))))
+        okr = before and not b.in_cycle(('b', i1)) and bool(xs) and all((lambda v_: v_.kind == 'call' and v_.cs is nw and not v_.proj)(q.exit_sem(b, x)) for x in xs)
         c.ob('returns-old', okr, 'next() returns the id read before the advance: consecutive calls never return the same id', '%d TxId::new sites' % len(news), loc_of(b))
     else:
         zero = [(i, s) for i, s in stores if s['rv']['r'] == 'use' and q.const_val(b, s['rv']['a'][0]) == 0]
